@@ -2,6 +2,799 @@
 
 package sarama
 
-// Group coordinator model (join/sync/heartbeat/leave, offset commit/fetch).
+// Group coordinator model of the simulated cluster: FindCoordinator, JoinGroup (join barrier, leader
+// election), SyncGroup (sync barrier), Heartbeat, LeaveGroup, OffsetCommit, OffsetFetch. Own wire format
+// (vfsR / vfsW). Enabled per simulator with enableGroups(); faults by occurrence under the keys
+// findCoordinator, join, sync, heartbeat, leave, offsetCommit, offsetFetch (optionally suffixed "@<clientID>").
 
-type vfGroupState struct{}
+import (
+	"fmt"
+	"sort"
+	"sync"
+	"time"
+)
+
+type vfgOffset struct {
+	Offset int64  `json:"offset"`
+	Meta   string `json:"meta"`
+}
+
+type vfgCommit struct {
+	Seq      int64  `json:"seq"`
+	Client   string `json:"client"`
+	Member   string `json:"member"`
+	Gen      int32  `json:"gen"`
+	TP       string `json:"tp"`
+	Offset   int64  `json:"offset"`
+	Meta     string `json:"meta"`
+	Code     int16  `json:"code"`
+	Applied  bool   `json:"applied"`
+	Version  int16  `json:"version"`
+	Retention int64 `json:"retention"`
+}
+
+type vfgMember struct {
+	ID         string
+	Client     string
+	Protocols  []string
+	Metadata   map[string][]byte
+	Joined     bool // has joined the round in progress
+	Assignment []byte
+}
+
+type vfgRound struct {
+	done chan struct{}
+}
+
+type vfGroupState struct {
+	ID          string
+	Coordinator int32
+	Generation  int32
+	State       string // Empty | PreparingRebalance | AwaitingSync | Stable
+	Members     map[string]*vfgMember
+	Leader      string
+	Protocol    string
+	Offsets     map[string]vfgOffset
+	Commits     []vfgCommit
+	nextMember  int
+	joinRound   *vfgRound
+	syncRound   *vfgRound
+	roundStart  time.Time
+	syncErr     int16
+}
+
+type vfGroupLayer struct {
+	mu               sync.Mutex
+	sim              *vfSim
+	groups           map[string]*vfGroupState
+	rebalanceTimeout time.Duration
+	loadInProgress   int // number of OffsetFetch answers still to be LOAD_IN_PROGRESS
+}
+
+func (s *vfSim) enableGroups() *vfGroupLayer {
+	gl := &vfGroupLayer{sim: s, groups: map[string]*vfGroupState{}, rebalanceTimeout: 150 * time.Millisecond}
+	s.mu.Lock()
+	s.groupLayer = gl
+	s.extra[8] = gl.handleOffsetCommit
+	s.extra[9] = gl.handleOffsetFetch
+	s.extra[10] = gl.handleFindCoordinator
+	s.extra[11] = gl.handleJoin
+	s.extra[12] = gl.handleHeartbeat
+	s.extra[13] = gl.handleLeave
+	s.extra[14] = gl.handleSync
+	s.mu.Unlock()
+	return gl
+}
+
+func (gl *vfGroupLayer) group(id string) *vfGroupState {
+	g := gl.groups[id]
+	if g == nil {
+		g = &vfGroupState{ID: id, Coordinator: 1, State: "Empty", Members: map[string]*vfgMember{}, Offsets: map[string]vfgOffset{}}
+		gl.groups[id] = g
+	}
+	return g
+}
+
+func (gl *vfGroupLayer) setCoordinator(group string, broker int32) {
+	gl.mu.Lock()
+	gl.group(group).Coordinator = broker
+	gl.mu.Unlock()
+}
+
+func (gl *vfGroupLayer) setOffset(group, topic string, part int32, off int64, meta string) {
+	gl.mu.Lock()
+	gl.group(group).Offsets[fmt.Sprintf("%s/%d", topic, part)] = vfgOffset{off, meta}
+	gl.mu.Unlock()
+}
+
+func (gl *vfGroupLayer) offsetsOf(group string) map[string]vfgOffset {
+	gl.mu.Lock()
+	defer gl.mu.Unlock()
+	out := map[string]vfgOffset{}
+	for k, v := range gl.group(group).Offsets {
+		out[k] = v
+	}
+	return out
+}
+
+func (gl *vfGroupLayer) commitsOf(group string) []vfgCommit {
+	gl.mu.Lock()
+	defer gl.mu.Unlock()
+	return append([]vfgCommit(nil), gl.group(group).Commits...)
+}
+
+// fault looks up the scripted outcome: the per-client key wins over the plain key when it has a non-ok entry.
+func (gl *vfGroupLayer) fault(kind, client string) (vfFault, int) {
+	s := gl.sim
+	s.mu.Lock()
+	defer s.mu.Unlock()
+	f, occ := s.nextFaultLocked(kind)
+	fc, occc := s.nextFaultLocked(kind + "@" + client)
+	if f.Kind == "ok" && f.DelayUs == 0 && f.Gate == "" {
+		return fc, occc
+	}
+	return f, occ
+}
+
+func vfgConnAction(f vfFault) string {
+	switch f.Kind {
+	case "dropBefore":
+		return "close"
+	case "silent":
+		return "silent"
+	}
+	return ""
+}
+
+func (c *vfSimConn) clientID() string { return c.lastClientID }
+
+// ---------------------------------------------------------------- FindCoordinator
+
+func (gl *vfGroupLayer) handleFindCoordinator(c *vfSimConn, key, version int16, body []byte) ([]byte, string) {
+	r := &vfsR{b: body}
+	group := r.str()
+	if version >= 1 {
+		_ = r.i8()
+	}
+	if r.err != nil || r.remaining() != 0 {
+		gl.sim.ev(vfEvent{Kind: "client-wire-violation", Broker: c.broker.ID, Note: "FindCoordinator malformed"}, true)
+		return nil, "close"
+	}
+	f, occ := gl.fault("findCoordinator", c.clientID())
+	gl.sim.ev(vfEvent{Kind: "find-coordinator", Broker: c.broker.ID, Key: group, Occ: occ, Fault: f.Kind, Note: c.clientID()}, false)
+	gl.sim.applyDelayAndGate(f)
+	if a := vfgConnAction(f); a != "" {
+		return nil, a
+	}
+	gl.mu.Lock()
+	coord := gl.group(group).Coordinator
+	gl.mu.Unlock()
+	w := &vfsW{}
+	if version >= 1 {
+		w.i32(0)
+	}
+	code := int16(0)
+	if f.Kind == "err" {
+		code = f.Code
+	}
+	w.i16(code)
+	if version >= 1 {
+		w.nstr(nil)
+	}
+	gl.sim.mu.Lock()
+	b := gl.sim.brokers[coord]
+	gl.sim.mu.Unlock()
+	if code != 0 || b == nil {
+		w.i32(-1)
+		w.str("")
+		w.i32(-1)
+	} else {
+		host, port := vfSplitAddr(b.Addr)
+		w.i32(b.ID)
+		w.str(host)
+		w.i32(port)
+	}
+	return w.b, ""
+}
+
+// ---------------------------------------------------------------- OffsetFetch / OffsetCommit
+
+func (gl *vfGroupLayer) handleOffsetFetch(c *vfSimConn, key, version int16, body []byte) ([]byte, string) {
+	r := &vfsR{b: body}
+	group := r.str()
+	type tp struct {
+		topic string
+		parts []int32
+	}
+	var tps []tp
+	nt := int(r.i32())
+	for i := 0; i < nt && r.err == nil; i++ {
+		t := r.str()
+		tps = append(tps, tp{t, r.i32arr()})
+	}
+	if r.err != nil || r.remaining() != 0 || version > 5 {
+		gl.sim.ev(vfEvent{Kind: "client-wire-violation", Broker: c.broker.ID, Note: fmt.Sprintf("OffsetFetch v%d malformed or unsupported by the simulator", version)}, true)
+		return nil, "close"
+	}
+	f, occ := gl.fault("offsetFetch", c.clientID())
+	gl.sim.applyDelayAndGate(f)
+	if a := vfgConnAction(f); a != "" {
+		return nil, a
+	}
+	gl.mu.Lock()
+	defer gl.mu.Unlock()
+	g := gl.group(group)
+	notCoord := g.Coordinator != c.broker.ID
+	w := &vfsW{}
+	if version >= 3 {
+		w.i32(0)
+	}
+	w.i32(int32(len(tps)))
+	var served []int64
+	for _, x := range tps {
+		w.str(x.topic)
+		w.i32(int32(len(x.parts)))
+		for _, p := range x.parts {
+			w.i32(p)
+			o, ok := g.Offsets[fmt.Sprintf("%s/%d", x.topic, p)]
+			code := int16(0)
+			switch {
+			case f.Kind == "err":
+				code = f.Code
+			case notCoord:
+				code = 16 // NOT_COORDINATOR
+			}
+			if !ok || code != 0 {
+				o = vfgOffset{Offset: -1}
+			}
+			w.i64(o.Offset)
+			if version >= 5 {
+				w.i32(-1)
+			}
+			meta := o.Meta
+			w.nstr(&meta)
+			w.i16(code)
+			served = append(served, o.Offset)
+		}
+	}
+	if version >= 2 {
+		w.i16(0)
+	}
+	gl.sim.hist.add(vfEvent{Kind: "offset-fetch", Broker: c.broker.ID, Key: group, Occ: occ, Fault: f.Kind, Note: c.clientID(), Vals: served}, true)
+	return w.b, ""
+}
+
+func (gl *vfGroupLayer) handleOffsetCommit(c *vfSimConn, key, version int16, body []byte) ([]byte, string) {
+	r := &vfsR{b: body}
+	group := r.str()
+	gen := int32(-1)
+	member := ""
+	retention := int64(-1)
+	if version >= 1 {
+		gen = r.i32()
+		member = r.str()
+	}
+	if version >= 2 && version <= 4 {
+		retention = r.i64()
+	}
+	type item struct {
+		topic string
+		part  int32
+		off   int64
+		meta  *string
+	}
+	var items []item
+	nt := int(r.i32())
+	for i := 0; i < nt && r.err == nil; i++ {
+		t := r.str()
+		np := int(r.i32())
+		for j := 0; j < np && r.err == nil; j++ {
+			it := item{topic: t}
+			it.part = r.i32()
+			it.off = r.i64()
+			if version == 1 {
+				_ = r.i64()
+			}
+			it.meta = r.nstr()
+			items = append(items, it)
+		}
+	}
+	if r.err != nil || r.remaining() != 0 || version > 4 {
+		gl.sim.ev(vfEvent{Kind: "client-wire-violation", Broker: c.broker.ID, Note: fmt.Sprintf("OffsetCommit v%d malformed or unsupported by the simulator", version)}, true)
+		return nil, "close"
+	}
+	f, occ := gl.fault("offsetCommit", c.clientID())
+	arrive := gl.sim.ev(vfEvent{Kind: "offset-commit-arrived", Broker: c.broker.ID, Key: group, Occ: occ, Fault: f.Kind, Note: c.clientID()}, true)
+	_ = arrive
+	gl.sim.applyDelayAndGate(f)
+	if a := vfgConnAction(f); a != "" {
+		return nil, a
+	}
+	gl.mu.Lock()
+	g := gl.group(group)
+	groupCode := int16(0)
+	switch {
+	case g.Coordinator != c.broker.ID:
+		groupCode = 16
+	case member != "" || gen >= 0:
+		m := g.Members[member]
+		switch {
+		case m == nil:
+			groupCode = 25 // UNKNOWN_MEMBER_ID
+		case gen != g.Generation:
+			groupCode = 22 // ILLEGAL_GENERATION
+		case g.State == "PreparingRebalance":
+			groupCode = 27 // REBALANCE_IN_PROGRESS
+		}
+	}
+	w := &vfsW{}
+	if version >= 3 {
+		w.i32(0)
+	}
+	var order []string
+	byTopic := map[string][]item{}
+	for _, it := range items {
+		if _, ok := byTopic[it.topic]; !ok {
+			order = append(order, it.topic)
+		}
+		byTopic[it.topic] = append(byTopic[it.topic], it)
+	}
+	omit := f.Kind == "omit"
+	if omit {
+		w.i32(0)
+	} else {
+		w.i32(int32(len(order)))
+	}
+	for _, t := range order {
+		if !omit {
+			w.str(t)
+			w.i32(int32(len(byTopic[t])))
+		}
+		for _, it := range byTopic[t] {
+			code := groupCode
+			apply := code == 0
+			switch f.Kind {
+			case "err":
+				code, apply = f.Code, false
+			case "errApplied":
+				code = f.Code
+			}
+			meta := ""
+			if it.meta != nil {
+				meta = *it.meta
+			}
+			tpk := fmt.Sprintf("%s/%d", it.topic, it.part)
+			if apply {
+				g.Offsets[tpk] = vfgOffset{it.off, meta}
+			}
+			seq := gl.sim.hist.add(vfEvent{Kind: "offset-commit", Broker: c.broker.ID, Key: tpk, Occ: occ, Fault: f.Kind, Code: code, Base: it.off, Note: meta, Vals: []int64{int64(gen), int64(version), retention}}, true)
+			g.Commits = append(g.Commits, vfgCommit{Seq: seq, Client: c.clientID(), Member: member, Gen: gen, TP: tpk, Offset: it.off, Meta: meta, Code: code, Applied: apply, Version: version, Retention: retention})
+			if !omit {
+				w.i32(it.part)
+				w.i16(code)
+			}
+		}
+	}
+	gl.mu.Unlock()
+	if f.Kind == "dropAfter" {
+		return nil, "close"
+	}
+	return w.b, ""
+}
+
+// ---------------------------------------------------------------- JoinGroup / SyncGroup / Heartbeat / LeaveGroup
+
+func (gl *vfGroupLayer) startRebalanceLocked(g *vfGroupState, why string) {
+	if g.State == "PreparingRebalance" {
+		return
+	}
+	g.State = "PreparingRebalance"
+	g.joinRound = &vfgRound{done: make(chan struct{})}
+	g.roundStart = time.Now()
+	for _, m := range g.Members {
+		m.Joined = false
+	}
+	if g.syncRound != nil {
+		// members waiting in SyncGroup learn that the round is void
+		g.syncErr = 27
+		close(g.syncRound.done)
+		g.syncRound = nil
+	}
+	gl.sim.hist.add(vfEvent{Kind: "rebalance-start", Key: g.ID, Note: why, N: int(g.Generation)}, true)
+}
+
+// completeJoinLocked closes the join barrier: evicts members that did not rejoin, bumps the generation.
+func (gl *vfGroupLayer) completeJoinLocked(g *vfGroupState) {
+	for id, m := range g.Members {
+		if !m.Joined {
+			delete(g.Members, id)
+			gl.sim.hist.add(vfEvent{Kind: "member-evicted", Key: g.ID, Note: id}, true)
+		}
+	}
+	g.Generation++
+	if len(g.Members) == 0 {
+		g.State = "Empty"
+	} else {
+		g.State = "AwaitingSync"
+		if _, ok := g.Members[g.Leader]; !ok {
+			ids := make([]string, 0, len(g.Members))
+			for id := range g.Members {
+				ids = append(ids, id)
+			}
+			sort.Strings(ids)
+			g.Leader = ids[0]
+		}
+		// protocol: first protocol of the leader supported by all (cases use one protocol per group)
+		g.Protocol = g.Members[g.Leader].Protocols[0]
+		g.syncRound = &vfgRound{done: make(chan struct{})}
+		g.syncErr = 0
+		for _, m := range g.Members {
+			m.Assignment = nil
+		}
+	}
+	var ids []string
+	for id := range g.Members {
+		ids = append(ids, id)
+	}
+	sort.Strings(ids)
+	gl.sim.hist.add(vfEvent{Kind: "generation", Key: g.ID, N: int(g.Generation), Note: fmt.Sprintf("leader=%s members=%v", g.Leader, ids)}, true)
+	close(g.joinRound.done)
+	g.joinRound = nil
+}
+
+func (gl *vfGroupLayer) allJoinedLocked(g *vfGroupState) bool {
+	for _, m := range g.Members {
+		if !m.Joined {
+			return false
+		}
+	}
+	return len(g.Members) > 0
+}
+
+func (gl *vfGroupLayer) handleJoin(c *vfSimConn, key, version int16, body []byte) ([]byte, string) {
+	r := &vfsR{b: body}
+	group := r.str()
+	_ = r.i32() // session timeout
+	if version >= 1 {
+		_ = r.i32()
+	}
+	member := r.str()
+	ptype := r.str()
+	np := int(r.i32())
+	var protos []string
+	meta := map[string][]byte{}
+	for i := 0; i < np && r.err == nil; i++ {
+		name := r.str()
+		protos = append(protos, name)
+		meta[name] = r.bytes()
+	}
+	if r.err != nil || r.remaining() != 0 || np < 1 || ptype != "consumer" {
+		gl.sim.ev(vfEvent{Kind: "client-wire-violation", Broker: c.broker.ID, Note: fmt.Sprintf("JoinGroup v%d malformed (type %q, %d protocols)", version, ptype, np)}, true)
+		return nil, "close"
+	}
+	f, occ := gl.fault("join", c.clientID())
+	gl.sim.ev(vfEvent{Kind: "join-arrived", Broker: c.broker.ID, Key: group, Occ: occ, Fault: f.Kind, Note: c.clientID() + " member=" + member}, true)
+	gl.sim.applyDelayAndGate(f)
+	if a := vfgConnAction(f); a != "" {
+		return nil, a
+	}
+	resp := func(code int16, gen int32, proto, leader, memberID string, members map[string][]byte) []byte {
+		w := &vfsW{}
+		if version >= 2 {
+			w.i32(0)
+		}
+		w.i16(code)
+		w.i32(gen)
+		w.str(proto)
+		w.str(leader)
+		w.str(memberID)
+		ids := make([]string, 0, len(members))
+		for id := range members {
+			ids = append(ids, id)
+		}
+		sort.Strings(ids)
+		w.i32(int32(len(ids)))
+		for _, id := range ids {
+			w.str(id)
+			w.bytes(members[id])
+		}
+		return w.b
+	}
+	if f.Kind == "err" {
+		gl.sim.ev(vfEvent{Kind: "join-resp", Key: group, Code: f.Code, Note: c.clientID()}, true)
+		return resp(f.Code, -1, "", "", member, nil), ""
+	}
+	gl.mu.Lock()
+	g := gl.group(group)
+	if g.Coordinator != c.broker.ID {
+		gl.mu.Unlock()
+		return resp(16, -1, "", "", member, nil), ""
+	}
+	if member != "" {
+		if _, ok := g.Members[member]; !ok {
+			gl.mu.Unlock()
+			gl.sim.ev(vfEvent{Kind: "join-resp", Key: group, Code: 25, Note: c.clientID()}, true)
+			return resp(25, -1, "", "", member, nil), ""
+		}
+	} else {
+		g.nextMember++
+		member = fmt.Sprintf("%s-m%d", c.clientID(), g.nextMember)
+		g.Members[member] = &vfgMember{ID: member, Client: c.clientID()}
+	}
+	m := g.Members[member]
+	m.Protocols, m.Metadata = protos, meta
+	gl.startRebalanceLocked(g, "join of "+member)
+	m.Joined = true
+	round := g.joinRound
+	if gl.allJoinedLocked(g) {
+		gl.completeJoinLocked(g)
+	}
+	timeout := gl.rebalanceTimeout
+	gl.mu.Unlock()
+	// wait for the barrier; laggards are evicted after the rebalance timeout
+	select {
+	case <-round.done:
+	case <-time.After(timeout):
+		gl.mu.Lock()
+		if g.joinRound == round {
+			gl.completeJoinLocked(g)
+		}
+		gl.mu.Unlock()
+		<-round.done
+	}
+	gl.mu.Lock()
+	defer gl.mu.Unlock()
+	if _, still := g.Members[member]; !still {
+		return resp(25, -1, "", "", member, nil), ""
+	}
+	var members map[string][]byte
+	if g.Leader == member {
+		members = map[string][]byte{}
+		for id, mm := range g.Members {
+			members[id] = mm.Metadata[g.Protocol]
+		}
+	}
+	gl.sim.hist.add(vfEvent{Kind: "join-resp", Key: group, Code: 0, N: int(g.Generation), Note: c.clientID() + " member=" + member}, true)
+	if f.Kind == "dropAfter" {
+		return nil, "close"
+	}
+	return resp(0, g.Generation, g.Protocol, g.Leader, member, members), ""
+}
+
+func (gl *vfGroupLayer) handleSync(c *vfSimConn, key, version int16, body []byte) ([]byte, string) {
+	r := &vfsR{b: body}
+	group := r.str()
+	gen := r.i32()
+	member := r.str()
+	na := int(r.i32())
+	assign := map[string][]byte{}
+	for i := 0; i < na && r.err == nil; i++ {
+		id := r.str()
+		assign[id] = r.bytes()
+	}
+	if r.err != nil || r.remaining() != 0 {
+		gl.sim.ev(vfEvent{Kind: "client-wire-violation", Broker: c.broker.ID, Note: "SyncGroup malformed"}, true)
+		return nil, "close"
+	}
+	f, occ := gl.fault("sync", c.clientID())
+	gl.sim.ev(vfEvent{Kind: "sync-arrived", Broker: c.broker.ID, Key: group, Occ: occ, Fault: f.Kind, N: int(gen), Note: c.clientID() + " member=" + member}, true)
+	gl.sim.applyDelayAndGate(f)
+	if a := vfgConnAction(f); a != "" {
+		return nil, a
+	}
+	resp := func(code int16, a []byte) []byte {
+		w := &vfsW{}
+		if version >= 1 {
+			w.i32(0)
+		}
+		w.i16(code)
+		if a == nil {
+			a = []byte{}
+		}
+		w.bytes(a)
+		return w.b
+	}
+	if f.Kind == "err" {
+		return resp(f.Code, nil), ""
+	}
+	gl.mu.Lock()
+	g := gl.group(group)
+	m := g.Members[member]
+	switch {
+	case g.Coordinator != c.broker.ID:
+		gl.mu.Unlock()
+		return resp(16, nil), ""
+	case m == nil:
+		gl.mu.Unlock()
+		return resp(25, nil), ""
+	case gen != g.Generation:
+		gl.mu.Unlock()
+		return resp(22, nil), ""
+	case g.State == "PreparingRebalance":
+		gl.mu.Unlock()
+		return resp(27, nil), ""
+	}
+	if g.State == "Stable" {
+		a := m.Assignment
+		gl.mu.Unlock()
+		return resp(0, a), ""
+	}
+	round := g.syncRound
+	if member == g.Leader {
+		for id, a := range assign {
+			if mm := g.Members[id]; mm != nil {
+				mm.Assignment = a
+			} else {
+				gl.sim.hist.add(vfEvent{Kind: "sync-stranger", Key: group, Note: id}, true)
+			}
+		}
+		var plan []string
+		for id, a := range assign {
+			plan = append(plan, fmt.Sprintf("%s=%s", id, vfgDescribeAssignment(a)))
+		}
+		sort.Strings(plan)
+		gl.sim.hist.add(vfEvent{Kind: "plan", Key: group, N: int(gen), Note: fmt.Sprint(plan)}, true)
+		g.State = "Stable"
+		g.syncErr = 0
+		close(round.done)
+		g.syncRound = nil
+	}
+	gl.mu.Unlock()
+	if round != nil {
+		select {
+		case <-round.done:
+		case <-time.After(gl.rebalanceTimeout):
+			// the leader never synced: the round is void, everybody rejoins
+			gl.mu.Lock()
+			if g.syncRound == round {
+				gl.startRebalanceLocked(g, "leader did not sync")
+			}
+			gl.mu.Unlock()
+			<-round.done
+		}
+	}
+	gl.mu.Lock()
+	defer gl.mu.Unlock()
+	if g.syncErr != 0 || g.Generation != gen {
+		return resp(27, nil), ""
+	}
+	if f.Kind == "dropAfter" {
+		return nil, "close"
+	}
+	gl.sim.hist.add(vfEvent{Kind: "sync-resp", Key: group, N: int(gen), Note: c.clientID() + " member=" + member + " " + vfgDescribeAssignment(m.Assignment)}, true)
+	return resp(0, m.Assignment), ""
+}
+
+// vfgParseAssignment decodes a ConsumerGroupMemberAssignment (version, [topic,[partitions]], userdata).
+func vfgParseAssignment(a []byte) (map[string][]int32, bool) {
+	if len(a) == 0 {
+		return map[string][]int32{}, true
+	}
+	r := &vfsR{b: a}
+	_ = r.i16()
+	n := int(r.i32())
+	out := map[string][]int32{}
+	for i := 0; i < n && r.err == nil; i++ {
+		t := r.str()
+		out[t] = r.i32arr()
+	}
+	_ = r.bytes()
+	return out, r.err == nil && r.remaining() == 0
+}
+
+func vfgDescribeAssignment(a []byte) string {
+	m, ok := vfgParseAssignment(a)
+	if !ok {
+		return "<undecodable>"
+	}
+	var ks []string
+	for t, ps := range m {
+		ks = append(ks, fmt.Sprintf("%s%v", t, ps))
+	}
+	sort.Strings(ks)
+	return fmt.Sprint(ks)
+}
+
+func (gl *vfGroupLayer) handleHeartbeat(c *vfSimConn, key, version int16, body []byte) ([]byte, string) {
+	r := &vfsR{b: body}
+	group := r.str()
+	gen := r.i32()
+	member := r.str()
+	if r.err != nil || r.remaining() != 0 {
+		gl.sim.ev(vfEvent{Kind: "client-wire-violation", Broker: c.broker.ID, Note: "Heartbeat malformed"}, true)
+		return nil, "close"
+	}
+	f, occ := gl.fault("heartbeat", c.clientID())
+	gl.sim.applyDelayAndGate(f)
+	if a := vfgConnAction(f); a != "" {
+		return nil, a
+	}
+	gl.mu.Lock()
+	g := gl.group(group)
+	code := int16(0)
+	switch {
+	case f.Kind == "err":
+		code = f.Code
+	case g.Coordinator != c.broker.ID:
+		code = 16
+	case g.Members[member] == nil:
+		code = 25
+	case gen != g.Generation:
+		code = 22
+	case g.State == "PreparingRebalance":
+		code = 27
+	}
+	gl.mu.Unlock()
+	gl.sim.ev(vfEvent{Kind: "heartbeat", Broker: c.broker.ID, Key: group, Occ: occ, Fault: f.Kind, Code: code, N: int(gen), Note: c.clientID() + " member=" + member}, code != 0)
+	w := &vfsW{}
+	if version >= 1 {
+		w.i32(0)
+	}
+	w.i16(code)
+	return w.b, ""
+}
+
+func (gl *vfGroupLayer) handleLeave(c *vfSimConn, key, version int16, body []byte) ([]byte, string) {
+	r := &vfsR{b: body}
+	group := r.str()
+	member := r.str()
+	if r.err != nil || r.remaining() != 0 {
+		gl.sim.ev(vfEvent{Kind: "client-wire-violation", Broker: c.broker.ID, Note: "LeaveGroup malformed"}, true)
+		return nil, "close"
+	}
+	f, occ := gl.fault("leave", c.clientID())
+	gl.sim.applyDelayAndGate(f)
+	if a := vfgConnAction(f); a != "" {
+		return nil, a
+	}
+	gl.mu.Lock()
+	g := gl.group(group)
+	code := int16(0)
+	switch {
+	case f.Kind == "err":
+		code = f.Code
+	case g.Coordinator != c.broker.ID:
+		code = 16
+	case g.Members[member] == nil:
+		code = 25
+	default:
+		delete(g.Members, member)
+		if len(g.Members) == 0 {
+			g.State = "Empty"
+			g.Generation++
+		} else {
+			gl.startRebalanceLocked(g, "leave of "+member)
+			if gl.allJoinedLocked(g) {
+				gl.completeJoinLocked(g)
+			}
+		}
+	}
+	gl.mu.Unlock()
+	gl.sim.ev(vfEvent{Kind: "leave", Broker: c.broker.ID, Key: group, Occ: occ, Fault: f.Kind, Code: code, Note: c.clientID() + " member=" + member}, true)
+	w := &vfsW{}
+	if version >= 1 {
+		w.i32(0)
+	}
+	w.i16(code)
+	return w.b, ""
+}
+
+// fence removes a member behind its back (session expired): its next request gets UNKNOWN_MEMBER_ID
+// and the rest of the group rebalances.
+func (gl *vfGroupLayer) fence(group, client string) {
+	gl.mu.Lock()
+	g := gl.group(group)
+	for id, m := range g.Members {
+		if m.Client == client {
+			delete(g.Members, id)
+			gl.sim.hist.add(vfEvent{Kind: "member-fenced", Key: group, Note: id}, true)
+		}
+	}
+	if len(g.Members) == 0 {
+		g.State = "Empty"
+		g.Generation++
+	} else {
+		gl.startRebalanceLocked(g, "fence of "+client)
+	}
+	gl.mu.Unlock()
+}
